@@ -8,6 +8,7 @@ import (
 	"os"
 	"sort"
 	"strings"
+	"sync"
 	"time"
 
 	"gosym/interp"
@@ -19,17 +20,20 @@ func defaultOpts(tier string) *interp.Options {
 		Tier:         tier,
 		MaxDecisions: 4000,
 		MaxSteps:     20_000_000,
-		TimeoutMs:    10_000,
+		TimeoutMs:    3_000,
 		AssertTimeMs: 30_000,
 		MaxFaults:    1,
 		KnownOpen:    map[string]bool{},
 		Explore:      -1,
 		Params:       map[string]int{},
 		Witnesses:    3,
+		KnownSeen:    &sync.Map{},
+		ReachSeen:    &sync.Map{},
+		LazyFP:       true,
 	}
 	if tier == "thorough" {
 		o.AssertTimeMs = 120_000
-		o.TimeoutMs = 20_000
+		o.TimeoutMs = 10_000
 		o.Witnesses = 10
 	}
 	return o
@@ -88,8 +92,12 @@ func cmdRun(args []string) int {
 	explore := fs.Int("explore", -1, "preemption bound (-1: default scheduler)")
 	timeout := fs.Duration("timeout", 30*time.Minute, "wall budget")
 	smtlog := fs.String("smtlog", "", "write solver dialogue of worker 0 here (single path mode)")
-	abstract := fs.Bool("abstract", false, "tier-1 float abstraction")
+	abstract := fs.Bool("abstract", true, "tier-1 float abstraction")
+	solver := fs.String("solver", "z3-new", "primary incremental solver: z3-new | cvc5")
+	slow := fs.String("slowlog", "", "directory for scripts of slow queries")
 	fs.Parse(args)
+	smt.SlowLog = *slow
+	smt.SolverPath = *solver
 	smt.Abstract = *abstract
 	t0 := time.Now()
 	_, _, pkgs, err := buildOverlay()
@@ -149,9 +157,9 @@ func cmdRun(args []string) int {
 }
 
 func printSummary(sum *interp.Summary) {
-	fmt.Printf("harness %s: %d paths %v, %d asserts, %d decisions, %d steps, %.1fs wall; solver: %d queries (%d sat, %d unsat, %d unknown) %.1fs\n",
+	fmt.Printf("harness %s: %d paths %v, %d asserts, %d decisions, %d steps, %.1fs wall; solver: %d queries (%d sat, %d unsat, %d unknown, %d feasibility-unknown, %d portfolio) %.1fs max %.1fs\n",
 		sum.Harness, sum.Paths, sum.ByOutcome, sum.Asserts, sum.Decisions, sum.Steps, sum.WallS,
-		sum.Stats.Queries, sum.Stats.Sat, sum.Stats.Unsat, sum.Stats.Unknown, sum.Stats.TimeS)
+		sum.Stats.Queries, sum.Stats.Sat, sum.Stats.Unsat, sum.Stats.Unknown, sum.FeasUnknown, sum.Stats.Fallback, sum.Stats.TimeS, sum.Stats.MaxS)
 	var rs []string
 	for r, n := range sum.Reached {
 		rs = append(rs, fmt.Sprintf("%s×%d", r, n))
